@@ -243,4 +243,128 @@ theorem insert_sound (i : Insert) (hkw : i.valuesKw.equal "values" = true) (L : 
     rw [insertStmt_qualified L fuel _ h1 h2 h3 h4 h5] at hs
     exact insertTail_sound L fuel _ _ i.cols i.valuesKw i.vals i.tail hkw hA.2.2.2.2.2.2 hp5 hs
 
+/-! ### towards batches: where an INSERT ends -/
+
+theorem At_append {L : Lexer} : ∀ (xs ys : List Tok) (p : Nat), At L p (xs ++ ys) → At L (p + xs.length) ys
+  | [], ys, p, h => by simpa using h
+  | x :: xs, ys, p, h => by
+    have := At_append xs ys (p + 1) h.2
+    simpa [Nat.add_assoc, Nat.add_comm 1] using this
+
+/-- the scan for `IF` behind a statement's body: over tokens that are neither `IF` nor end a statement it runs to
+the first token that does end one -/
+theorem scanForIf_run (L : Lexer) : ∀ (tail : List Tok) (fuel : Nat) (s : LS) (p : Nat) (b : Tok) (rest : List Tok) (a : Tok) (tl : List Tok),
+    (∀ x ∈ tail, isDMLTerminator x.kind = false) → isDMLTerminator b.kind = true →
+    tail ++ b :: rest = a :: tl → At L p (a :: tl) → Fed s p a →
+    (scanForIf L fuel s a.kind).1.idem = true →
+    (scanForIf L fuel s a.kind).2.1 = b.kind ∧ ∃ q, Fed (scanForIf L fuel s a.kind).2.2 q b ∧ At L q (b :: rest)
+  | [], fuel, s, p, b, rest, a, tl, _, hb, he, hA, hF, hi => by
+    simp only [List.nil_append, List.cons.injEq] at he
+    obtain ⟨ha, htl⟩ := he
+    subst ha; subst htl
+    cases fuel with
+    | zero => simp [scanForIf, R.fuel] at hi
+    | succ n =>
+      unfold scanForIf
+      simp only [hb, ↓reduceIte, true_and]
+      exact ⟨p, hF, hA⟩
+  | x :: tail, fuel, s, p, b, rest, a, tl, hx, hb, he, hA, hF, hi => by
+    simp only [List.cons_append, List.cons.injEq] at he
+    obtain ⟨ha, htl⟩ := he
+    subst ha; subst htl
+    have hxk : isDMLTerminator x.kind = false := hx x (List.mem_cons_self ..)
+    obtain ⟨a2, tl2, he2⟩ : ∃ a2 tl2, tail ++ b :: rest = a2 :: tl2 := by
+      cases tail <;> simp
+    have hA2 := hA.2
+    rw [he2] at hA2
+    have h1 := nextT_fst hA2 hF.1
+    have hf1 := nextT_fed hA2 hF.1
+    cases fuel with
+    | zero => simp [scanForIf, R.fuel] at hi
+    | succ n =>
+      unfold scanForIf at hi ⊢
+      simp only [hxk, Bool.false_eq_true, ↓reduceIte] at hi ⊢
+      by_cases hif : x.kind = tkIf
+      · simp [hif] at hi
+      · simp only [hif, ↓reduceIte] at hi ⊢
+        generalize nextT L s = o at h1 hf1 hi ⊢
+        obtain ⟨t1, s1⟩ := o
+        simp only at h1 hf1 hi ⊢
+        subst h1
+        exact scanForIf_run L tail n s1 (p + 1) b rest a2 tl2 (fun y hy => hx y (List.mem_cons_of_mem _ hy)) hb he2 hA2 hf1 hi
+
+/-- an INSERT inside a longer input: behind its VALUES list come tokens that end no statement, then one (`b`) that does -/
+theorem insertTail_run (L : Lexer) (fuel : Nat) (s : LS) (p : Nat) (cols : List Ident) (kw : Ident) (vals : Terms)
+    (tail : List Tok) (b : Tok) (rest : List Tok)
+    (hkw : kw.equal "values" = true) (htail : ∀ x ∈ tail, isDMLTerminator x.kind = false) (hb : isDMLTerminator b.kind = true)
+    (hA : At L p (renderCols cols (idt kw :: k tkLparen :: vals.renderElems (k tkRparen :: (tail ++ b :: rest))))) (hs : s.p = p)
+    (hi : (insertTail L fuel s).1.idem = true) :
+    vals.nonIdem = false ∧ (insertTail L fuel s).2.1 = b.kind ∧ ∃ q, Fed (insertTail L fuel s).2.2 q b ∧ At L q (b :: rest) := by
+  obtain ⟨a, tl, hc⟩ := cols_first cols (idt kw :: k tkLparen :: vals.renderElems (k tkRparen :: (tail ++ b :: rest)))
+  rw [hc] at hA
+  have h1 := nextT_fst hA hs
+  have hf1 := nextT_fed hA hs
+  unfold insertTail at hi ⊢
+  generalize nextT L s = o1 at h1 hf1 hi ⊢
+  obtain ⟨t1, s1⟩ := o1
+  simp only at h1 hf1 hi ⊢
+  subst h1
+  have hcols := cols_ok L cols fuel s1 p _ a tl hc hA hf1
+  generalize parseIdentifiers L fuel s1 a.kind = o2 at hcols hi ⊢
+  obtain ⟨e, s2⟩ := o2
+  simp only at hcols hi ⊢
+  cases e with
+  | true => simp [R.bad] at hi
+  | false =>
+    have hA2 := hcols rfl
+    simp only [Bool.false_eq_true, ↓reduceIte] at hi ⊢
+    have h2 := nextT_fst hA2 rfl
+    have hf2 := nextT_fed hA2 rfl
+    have hp2 := nextT_p hA2 rfl
+    generalize nextT L s2 = o3 at h2 hf2 hp2 hi ⊢
+    obtain ⟨t2, s3⟩ := o3
+    simp only at h2 hf2 hp2 hi ⊢
+    subst h2
+    have hid : s3.id = kw := hf2.2 rfl
+    have hkw' : isUnreservedKeyword s3 tkIdentifier "values" = true := by simp [isUnreservedKeyword, hid, hkw]
+    simp only [hkw', Bool.not_true, Bool.false_eq_true, ↓reduceIte] at hi ⊢
+    have h3 := nextT_fst hA2.2 hp2
+    have hp3 := nextT_p hA2.2 hp2
+    generalize nextT L s3 = o4 at h3 hp3 hi ⊢
+    obtain ⟨t3, s4⟩ := o4
+    simp only at h3 hp3 hi ⊢
+    subst h3
+    simp only [ne_eq, not_true_eq_false, ↓reduceIte] at hi ⊢
+    obtain ⟨c, tlc, hbv, _⟩ := terms_first vals tkRparen (tail ++ b :: rest)
+    have hA3 := hA2.2.2
+    rw [hbv] at hA3
+    have h4 := nextT_fst hA3 hp3
+    have hf4 := nextT_fed hA3 hp3
+    generalize nextT L s4 = o5 at h4 hf4 hi ⊢
+    obtain ⟨t4, s5⟩ := o5
+    simp only at h4 hf4 hi ⊢
+    subst h4
+    have key := terms_entry (termsUntil_is L) (by decide) (by decide) vals (terms_all vals) fuel s5 _ (tail ++ b :: rest) c tlc hbv hA3 hf4
+    generalize parseTermsUntilRparen L fuel s5 c.kind = o6 at key hi ⊢
+    obtain ⟨r, t5, s6⟩ := o6
+    simp only at key hi ⊢
+    by_cases hr : r.idem = true
+    · obtain ⟨hA4, hn⟩ := key hr
+      simp only [hr, Bool.not_true, Bool.false_eq_true, ↓reduceIte] at hi ⊢
+      by_cases ht5 : t5 = tkRparen
+      · subst ht5
+        simp only [ne_eq, not_true_eq_false, ↓reduceIte] at hi ⊢
+        obtain ⟨a2, tl2, he2⟩ : ∃ a2 tl2, tail ++ b :: rest = a2 :: tl2 := by
+          cases tail <;> simp
+        rw [he2] at hA4
+        have h6 := nextT_fst hA4 rfl
+        have hf6 := nextT_fed hA4 rfl
+        generalize nextT L s6 = o7 at h6 hf6 hi ⊢
+        obtain ⟨t6, s7⟩ := o7
+        simp only at h6 hf6 hi ⊢
+        subst h6
+        exact ⟨hn, scanForIf_run L tail fuel s7 _ b rest a2 tl2 htail hb he2 hA4 hf6 hi⟩
+      · simp [ht5, R.bad] at hi
+    · simp [hr] at hi
+
 end CqlVerif.Ast
